@@ -67,13 +67,24 @@ def impl_settle(case):
     n = len(case["bal"])
     f = float(Fraction(*case["f"]))
     out = {}
-    pot = Pot(n, f, case["cap"], {p: b for p, b in enumerate(case["bal"])})
+    # the mapping seat -> contribution may be built by the caller in any key order (e.g. after a JSON round trip or
+    # when seats joined the pot in betting order): `korder` picks the insertion order
+    order = list(range(n))
+    ko = case.get("korder")
+    if ko == 1:
+        order.reverse()
+    elif ko:
+        order = order[ko % n:] + order[:ko % n]
+
+    def balances():
+        return {p: case["bal"][p] for p in order}
+    pot = Pot(n, f, case["cap"], balances())
     try:
         r = pot.get_rake_per_player(case["rake_pot"])
         out["rake"] = [r[p] for p in range(n)]
     except Exception as e:
         out["rake_exc"] = type(e).__name__
-    pot = Pot(n, f, case["cap"], {p: b for p, b in enumerate(case["bal"])})
+    pot = Pot(n, f, case["cap"], balances())
     try:
         pay, r = pot.settle_showdown([list(t) for t in case["tiers"]], case["rake_pot"])
         out["pay"] = [pay[p] for p in range(n)]
@@ -147,8 +158,11 @@ class C14(Prop):
             f = min(1.0, k / m)
         tot = sum(bal)
         cap = rng.choice([0, 1, 2, 3, 5, 10, max(1, int(f * tot) // 2), int(f * tot), int(f * tot) + 1, 10**6, rng.randrange(0, 50)])
-        return {"bal": bal, "f": core.ratj(f), "cap": cap, "rake_pot": rng.random() < 0.92,
-                "tiers": gen_ranking(rng, bal, True)}
+        c = {"bal": bal, "f": core.ratj(f), "cap": cap, "rake_pot": rng.random() < 0.92,
+             "tiers": gen_ranking(rng, bal, True)}
+        if rng.random() < 0.3:
+            c["korder"] = rng.randrange(1, n + 1)
+        return c
 
     def generate(self, rng, tier, shard):
         from . import poker
@@ -300,7 +314,10 @@ class C02(Prop):
         f = rng.choice(FRACTIONS) if raked else 0.0
         cap = rng.choice([0, 1, 3, 10, 10**6]) if raked else 0
         with_max = rng.random() < 0.9
-        return {"bal": bal, "f": core.ratj(f), "cap": cap, "rake_pot": raked, "tiers": gen_ranking(rng, bal, with_max)}
+        c = {"bal": bal, "f": core.ratj(f), "cap": cap, "rake_pot": raked, "tiers": gen_ranking(rng, bal, with_max)}
+        if rng.random() < 0.3:
+            c["korder"] = rng.randrange(1, n + 1)
+        return c
 
     def generate(self, rng, tier, shard):
         from . import poker
